@@ -209,6 +209,22 @@ def rule_xen(ctx, prog, eff):
             facts = b.facts_at(pos)
             ok = any(r[0] == 'bool' and r[2] is True and is_call(unref(r[1]), "MmapXenFlags::mmap_in_advance") for r in facts)
     ctx.ob("R12.4.advance_correlation", b.key, ok, b.where(), "grant.unix_mmap = Some(..) only on the mmap_in_advance() edge (so on-demand grants, the only ones cloned, own no mapping)")
+    # ... and what Drop later releases (self.size, self.index) is what was mapped here: size = range.size, index = the ioctl's index
+    rec = {}
+    for pos, s in b.stmts():
+        if s["k"] == "assign" and "p" in s["lhs"]:
+            for e in s["lhs"]["p"]:
+                if isinstance(e, dict) and e.get("name") in ("size", "index") and e.get("adt", "").endswith("MmapXenGrant"):
+                    rec.setdefault(e["name"], []).append(deep_strip(b.rvalue_term(s["rv"], pos, 0)))
+    mr = [c for c in b.calls() if canon(c.target or "").endswith("MmapXenGrant::mmap_range")]
+    size_ok = index_ok = False
+    if len(mr) == 1:
+        want_size = unref(mr[0].arg(2))
+        size_ok = len(rec.get("size", [])) == 1 and unref(rec["size"][0]) == want_size and match(F(P(1), "size"), want_size, {})
+        res = deep_strip(b.call_term(mr[0].t, mr[0].pos, 0))
+        index_ok = len(rec.get("index", [])) == 1 and any(x == res for x in subterms(rec["index"][0])) and unref(rec["index"][0])[0] == 'field' and unref(rec["index"][0])[2] == '1'
+    ctx.ob("R12.4.records_mapping", b.key, size_ok and index_ok, b.where(),
+           f"after mapping in advance the grant records size = range.size (the size handed to mmap_range) [{size_ok}] and index = the index mmap_range returned [{index_ok}]: Drop releases exactly these")
 
 
 def lifetimes(s):
